@@ -147,6 +147,12 @@ func (c *channel) setStateWLock(state SessionState) {
 	c.stateMu.Lock()
 	defer c.stateMu.Unlock()
 
+	if c.state == SessionStateFailed && state == SessionStateFinished {
+		// The session was already terminated (for instance, failed by the application
+		// while the server was finishing it): the first terminal state is kept.
+		return
+	}
+
 	if state.Step() < c.state.Step() {
 		panic(fmt.Errorf("cannot change from state %s to %s", c.state, state))
 	}
